@@ -536,9 +536,17 @@ class DistErlang(DistContinuous):
             # according to Law and Kelton, Simulation Modeling and Analysis
             # repeated drawing and composition is usually faster for k<=10
             product: float = 1.0
+            logsum: float = 0.0
             for _ in range(self._k):
-                product *= _next_float_open(self._stream)
-            return -self._scale * math.log(product)
+                u: float = _next_float_open(self._stream)
+                if product * u == 0.0:
+                    # the running product would underflow to zero: split off
+                    # its logarithm
+                    logsum += math.log(product) + math.log(u)
+                    product = 1.0
+                else:
+                    product *= u
+            return -self._scale * (logsum + math.log(product))
         return self._dist_gamma.draw()
 
     def _set_stream(self, stream: StreamInterface):
@@ -728,7 +736,8 @@ class DistGamma(DistContinuous):
                 if (w + d - theta * z) >= 0.0:
                     return self._scale * y
                 #  step 4.
-                if w > math.log(z):
+                # z can underflow to zero: log(0) = -infinity, so accept
+                if z <= 0.0 or w > math.log(z):
                     return self._scale * y
                 counter += 1
             logger.info("Gamma distribution -- 1000 tries for alpha>1.0")
